@@ -30,10 +30,16 @@ class Gen:
         self.funcs = []        # (name, [(pname, ptype)], rtype, body)
         self.size = size
         self.used = set()
+        # identifiers that are keywords of Go (valid Folang names): each at most once per program
+        self.kwpool = ["map", "range", "default", "func", "var", "go", "select", "struct", "switch", "case", "chan", "const", "defer", "goto",
+                       "interface", "return", "break", "continue", "fallthrough", "for"]
+        rng.shuffle(self.kwpool)
 
     # ------------------------------------------------------------ helpers
     def fresh(self, base="v"):
         self.n += 1
+        if self.kwpool and self.rng.random() < 0.06:
+            return self.kwpool.pop()
         return "%s%d" % (base, self.n)
 
     def tag(self):
